@@ -30,9 +30,25 @@ theorem qEncode_ok (off : Int) (qs : List Int) (h : ∀ q ∈ qs, ScoreOk off q)
     have ih' := ih (fun x hx => h x (by simp [hx]))
     unfold encodeScores at ih' ⊢
     unfold ScoreOk at hq
-    have hw : wrap8 (q + off) = q + off := by unfold wrap8; omega
-    have hnn : ¬ (q + off < 0) := by omega
-    simp [List.mapM_cons, ih', hw, hnn, bind, Except.bind, pure, Except.pure]
+    have hnn : ¬ (q + off < 0 ∨ 127 < q + off) := by omega
+    simp [List.mapM_cons, ih', hnn, bind, Except.bind, pure, Except.pure]
+
+/-- a score outside the ASCII range is rejected, never wrapped around -/
+theorem qEncode_rejects (off : Int) (qs : List Int) (h : ∃ q ∈ qs, q + off < 0 ∨ 127 < q + off) :
+    encodeScores off qs = .error .valueError := by
+  induction qs with
+  | nil => obtain ⟨q, hq, _⟩ := h; cases hq
+  | cons a t ih =>
+    unfold encodeScores at ih ⊢
+    by_cases ha : a + off < 0 ∨ 127 < a + off
+    · simp [List.mapM_cons, ha, bind, Except.bind]
+    · have ht : ∃ q ∈ t, q + off < 0 ∨ 127 < q + off := by
+        obtain ⟨q, hq, hb⟩ := h
+        simp only [List.mem_cons] at hq
+        rcases hq with rfl | hq
+        · exact absurd hb ha
+        · exact ⟨q, hq, hb⟩
+      simp [List.mapM_cons, ha, ih ht, bind, Except.bind]
 
 theorem score_char_not_space (c : Char) (h : 33 ≤ c.toNat ∧ c.toNat ≤ 126) : isSpace c = false := by
   unfold isSpace
